@@ -385,6 +385,9 @@ def version_counter(ctx, r):
                 else:
                     ok = False
                     desc.append(fmt_leaf(l))
+            if not any(l[0] == "call" and l[1].endswith("saturating_add") for l in lv):
+                ok = False
+                desc.append("(no increment of a previous/maximum version)")
             r.check(ok, "counter-write:%s" % w.body.path.split("::")[-1], w.body,
                     "%s sets the counter to %s" % (w.body.path, ", ".join(desc)),
                     "%s sets the version counter to %s (expected previous+1 or max-seen+1)" % (w.body.path, ", ".join(desc)),
